@@ -462,7 +462,7 @@ func checkEventTables(c *core.Ctx) {
 					return false
 				}
 				b, isB := call.Call.Value.(*ssa.Builtin)
-				if !(isB && b.Name() == "len" && (strings.HasSuffix(core.Path(call.Call.Args[0]), "."+t.idMap) || strings.HasSuffix(core.Path(call.Call.Args[0]), "."+t.revMap))) {
+				if !(isB && b.Name() == "len" && (strings.HasSuffix(core.Path(core.NormCall(&call.Call).Args[0]), "."+t.idMap) || strings.HasSuffix(core.Path(core.NormCall(&call.Call).Args[0]), "."+t.revMap))) {
 					return false
 				}
 				// the length must be taken AFTER the insertion (the id is taken before it)
@@ -479,8 +479,8 @@ func checkEventTables(c *core.Ctx) {
 				}
 			} else if !cntOK {
 				// the value may be wrapped in a conversion helper: uint16ToBytes(id)
-				if call, isCall := core.Unwrap(s.Arg(1)).(*ssa.Call); isCall && len(call.Call.Args) == 1 {
-					if off, base, okS := splitConst(call.Call.Args[0]); okS && off == 1 {
+				if call, isCall := core.Unwrap(s.Arg(1)).(*ssa.Call); isCall && len(core.NormCall(&call.Call).Args) == 1 {
+					if off, base, okS := splitConst(core.NormCall(&call.Call).Args[0]); okS && off == 1 {
 						if lc, isLen := core.Unwrap(base).(*ssa.Call); isLen {
 							if b, isB := lc.Call.Value.(*ssa.Builtin); isB && b.Name() == "len" && insert != nil && core.Dominates(lc, insert) {
 								cntOK = true
